@@ -70,6 +70,16 @@ type World struct {
 	// subset (a harness limitation, never a verdict).
 	Unsupported []string
 	Opt         sqlmodel.ExecOptions
+	Trace       []StmtTrace // every statement the simulated backends received
+}
+
+// StmtTrace records what one backend statement did.
+type StmtTrace struct {
+	Stmt     shardfix.Stmt
+	Matched  int // rows that passed WHERE (SELECT) / were matched (DML)
+	Rows     int // rows returned
+	Affected uint64
+	Err      string
 }
 
 func physKey(slice, db, name string) string {
@@ -309,17 +319,20 @@ func (w *World) ExecStmt(s shardfix.Stmt) (*mysql.Result, error) {
 		if err != nil {
 			return nil, w.backendErr(s, err)
 		}
+		w.Trace = append(w.Trace, StmtTrace{Stmt: s, Matched: rs.Matched, Rows: len(rs.Rows)})
 		return sqlmodel.Encode(rs)
 	default:
 		r, err := sqlmodel.ExecStmt(st, cat, w.Opt)
 		if err != nil {
 			return nil, w.backendErr(s, err)
 		}
+		w.Trace = append(w.Trace, StmtTrace{Stmt: s, Matched: int(r.Matched), Affected: r.Affected})
 		return sqlmodel.EncodeOK(r), nil
 	}
 }
 
 func (w *World) backendErr(s shardfix.Stmt, err error) error {
+	w.Trace = append(w.Trace, StmtTrace{Stmt: s, Err: err.Error()})
 	if u, ok := err.(*sqlmodel.Unsupported); ok {
 		w.Unsupported = append(w.Unsupported, u.What+" in "+s.SQL)
 	}
